@@ -50,12 +50,22 @@ class MultiFunction:
 
     def __init__(self):
         """Initialise."""
-        # Analyse class properties and cache handler data the
-        # first time this is run for a particular class
-        # (cached for each algorithm for performance)
+        self._update_handlers()
+
+        # Create cache for memoized_handler
+        self._memoized_handler_cache = {}
+
+    def _update_handlers(self):
+        """Build the handler tables of this object, covering every registered type.
+
+        The class properties are analysed and the handler data cached the
+        first time this is run for a particular class (cached for each
+        algorithm for performance). The cached data is rebuilt if types have
+        been registered with ``ufl_type`` since it was built.
+        """
         algorithm_class = type(self)
         cache_data = MultiFunction._handlers_cache.get(algorithm_class)
-        if not cache_data:
+        if not cache_data or len(cache_data[0]) != len(Expr._ufl_all_classes_):
             handler_names = [None] * len(Expr._ufl_all_classes_)
 
             # Iterate over the inheritance chain for each Expr
@@ -87,12 +97,15 @@ class MultiFunction:
         self._handlers = [getattr(self, name) for name in handler_names]
         self._is_cutoff_type = is_cutoff_type
 
-        # Create cache for memoized_handler
-        self._memoized_handler_cache = {}
-
     def __call__(self, o, *args):
         """Delegate to handler function based on typecode of first argument."""
-        return self._handlers[o._ufl_typecode_](o, *args)
+        try:
+            handler = self._handlers[o._ufl_typecode_]
+        except IndexError:
+            # The type of o was registered after the tables were built
+            self._update_handlers()
+            handler = self._handlers[o._ufl_typecode_]
+        return handler(o, *args)
 
     def undefined(self, o, *args):
         """Trigger error for types with missing handlers."""
